@@ -49,6 +49,8 @@ def main():
         payload = json.load(open(a.replay))
         sys.exit(mod.replay(payload))
     ctx = core.Ctx(a.pid, a.tier, seed)
+    import warnings
+    warnings.filterwarnings("ignore", category=RuntimeWarning)   # numpy floating-point warnings of probed edge inputs: checked by value, not by message
     try:
         mod.run(ctx)
     except Exception as e:  # a crash of the harness is a broken check, never a pass
